@@ -24,23 +24,53 @@ Record pquery := mkPQ {
   q_mes : bool;                      (* the given allocation is an Equal Shares outcome *)
   q_ok : bool;                       (* PriceableResult.validate() is True *)
   q_cert : cert;
-  (* returned allocation, voter_budget, payment_functions, the implementation's own validator on them *)
-  q_wit : option (list nat * Q * list (list Q) * bool);
+  (* returned allocation, voter_budget, payment_functions, the implementation's own validator on them, and
+     "boundary noise": some pair (lhs, rhs) compared by the validator lies within 1e-9 of each other while
+     round(lhs, 2) <> round(rhs, 2) (computed by the harness from the returned floats) -- then the library's
+     verdict is unspecified (the property leaves verdicts within the tolerance open) *)
+  q_wit : option (list nat * Q * list (list Q) * bool * bool * bool);   (* ..., valid, noise, edge: a compared
+     pair within 1e-9 of each other AND of a rounding boundary (then float sums and exact sums may round apart) *)
   (* assignments (x = indicator of a set, voter budget, payments; r / m as in asg_of) and whether they satisfy
      every row and bound of the mip model that priceable() built (evaluated exactly by the harness) *)
   q_rows : list (list nat * Q * list (list Q) * bool)
 }.
 
+(* a call priceable(..., stable=True, relaxation=R(instance, profile)) *)
+Inductive rcert :=
+| RWitness (W : list nat) (b : Q) (P : list (list Q)) (R : relax)   (* a relaxed price system for W *)
+| RFarkas (ys : list (list Q)).                                     (* no relaxed price system whatever beta *)
+
+Record rquery := mkRQ {
+  r_kind : rkind; r_exh : bool;
+  r_alloc : option (list nat);
+  r_ok : bool;                       (* PriceableResult.validate() is True *)
+  r_exist : rcert;                   (* is there a relaxed price system at all *)
+  (* the optimum of the model's MIP: allocation, voter budget, payments, parameters (objective v), the
+     threshold t = v - delta and the certificates "no solution selecting W has objective <= t" (one for the
+     given allocation, else one per subset); None: the harness found the model's rows infeasible *)
+  r_opt : option (list nat * Q * list (list Q) * relax * Q * list (list Q));
+  (* returned allocation, voter_budget, payments, parameters read off relaxation_beta, the reported objective,
+     and validate_price_system(..., relaxation=the same object) on them *)
+  r_wit : option (list nat * Q * list (list Q) * relax * Q * bool * bool * bool);   (* ..., valid, noise, edge *)
+  (* validator queries with a relaxation whose parameters were set exactly *)
+  r_vals : list (list nat * bool * Q * list (list Q) * relax * bool);
+  (* assignments and whether they satisfy every row and bound of the captured mip model *)
+  r_rows : list (list nat * Q * list (list Q) * relax * bool)
+}.
+
 Record case := mkCase {
   c_costs : list Q; c_budget : Q; c_ballots : list (list nat);
   c_vals : list vquery;
-  c_query : option pquery
+  c_query : option pquery;
+  c_rquery : option rquery
 }.
 
 Definition I_of (c : case) : inst := mkInst (c_costs c) (c_budget c).
 
 (* tolerance of the validator's documented rounding (0.01) and the margin of the property (0.1) *)
 Definition TOL : Q := 1 # 100.
+(* what a returned price system may miss a condition by: float noise of the solver *)
+Definition WIT_EPS : Q := 1 # 1000000.
 Definition MARGIN : Q := 99 # 1000.
 
 (* failure codes
@@ -51,10 +81,21 @@ Definition MARGIN : Q := 99 # 1000.
    5  priceable succeeds although checked Farkas certificates refute every candidate
    6  priceable returns an allocation other than the given one / an infeasible one
    7  the harness's certificate is rejected by the verified checker (machinery fault)
-   8  the returned witness does not pass the implementation's own validator
-   9  the returned witness is not a price system within the validator's tolerance (check_ps_eps)
+   8  the returned witness does not pass the implementation's own validator (and no compared pair sits on a
+      rounding boundary within 1e-9)
+   9  the returned witness breaks a condition of the definition by more than 1e-6 (check_ps_eps)
    10 priceable (plain, non-exhaustive) fails on an Equal Shares outcome
-   11 the rows of the mip model built by priceable() differ from Model.ps_constraints on an assignment *)
+   11 the rows of the mip model built by priceable() differ from Model.ps_constraints on an assignment
+   relaxations (stable=True, relaxation=R):
+   12 the relaxed call fails although a checked relaxed price system exists
+   13 the relaxed call succeeds although checked certificates refute every candidate allocation
+   14 the reported objective (beta) is not the minimum: it differs from the certified minimum by more than 1e-6
+   15 the relaxed call succeeds although the harness found the model's rows infeasible (uncertified)
+   16 the returned parameters are outside the documented range of the relaxation class
+   (1, 2, 3, 6, 7, 8, 9, 11 are reused for the relaxed validator / witness / certificates / rows) *)
+
+Definition OBJ_TOL : Q := 1 # 1000000.
+Definition OBJ_DELTA : Q := 1 # 10000000.
 
 Definition check_v (I : inst) (A : profile) (v : vquery) : list nat :=
   let exact := check_witness I A (v_W v) (v_b v) (v_P v) (v_stable v) (v_exh v) in
@@ -96,21 +137,130 @@ Definition check_q (I : inst) (A : profile) (qy : pquery) : list nat :=
   ++ flag (negb (q_mes qy && negb (q_stable qy) && negb (q_exh qy) && negb (q_ok qy))) 10
   ++ match q_wit qy with
      | None => []
-     | Some (W, b, P, valid) =>
+     | Some (W, b, P, valid, noise, edge) =>
          flag (wf_allocb I W && Qleb (tcost I W) (budget I)
                && match q_alloc qy with Some W0 => set_eqb W W0 | None => true end) 6
-         ++ flag valid 8
-         ++ flag (check_ps_eps TOL I A W b P (q_stable qy) (q_exh qy)) 9
-         ++ flag (Bool.eqb (validate_ps I A W b P (q_stable qy) (q_exh qy)) valid) 3
+         ++ flag (valid || noise) 8
+         ++ flag (check_ps_eps WIT_EPS I A W b P (q_stable qy) (q_exh qy)) 9
+         ++ flag (edge || Bool.eqb (validate_ps I A W b P (q_stable qy) (q_exh qy)) valid) 3
      end
   ++ flag (forallb (fun '(Wx, b, P, r) =>
              Bool.eqb (ps_constraints I A (q_alloc qy) (q_stable qy) (q_exh qy)
                          (asg_of I A Wx b (pay_of P) (q_stable qy))) r) (q_rows qy)) 11.
 
+(* ---------- relaxations ---------- *)
+Definition rkind_eqb (a b : rkind) : bool :=
+  match a, b with
+  | KMul, KMul | KAdd, KAdd | KVec, KVec | KVecPos, KVecPos | KOff, KOff => true
+  | _, _ => false
+  end.
+
+(* the documented ranges: MinMul beta in [0, inf); MinAddVectorPositive beta[c] in [0, inf);
+   MinAddOffset beta[c] >= 0 with sum <= BUDGET_FRACTION * budget; the others unrestricted *)
+Definition doc_range (eps : Q) (I : inst) (R : relax) : bool :=
+  let C := all_projects I in
+  match R with
+  | RMul g => Qleb (- eps) g
+  | RAdd _ => true
+  | RVec _ => true
+  | RVecPos l => forallb (fun c => Qleb (- eps) (beta_at l c)) C
+  | ROff _ l => forallb (fun c => Qleb (- eps) (beta_at l c)) C
+                && Qleb (Qsum (map (beta_at l) C)) (RELAX_FRACTION * budget I + eps)
+  end.
+
+Definition canonicalb (I : inst) (W : list nat) : bool :=
+  natlist_eqb W (filter (fun c => memb c W) (all_projects I)).
+
+Definition check_rv (I : inst) (A : profile) (v : list nat * bool * Q * list (list Q) * relax * bool) : list nat :=
+  let '(W, exh, b, P, R, impl) := v in
+  let exact := check_witness_g I A W b P true exh (Some R) in
+  let near := check_ps_eps_g MARGIN I A W b P true exh (Some R) in
+  let model := validate_ps_g I A W b P true exh (Some R) in
+  flag (negb (exact && negb impl)) 1
+  ++ flag (negb (wf_allocb I W && negb near && impl)) 2
+  ++ flag (Bool.eqb model impl) 3.
+
+Definition decide_r (I : inst) (A : profile) (qy : rquery) : option bool :=
+  let n := Qnat (length A) in
+  match r_exist qy, r_alloc qy with
+  | RWitness W b P R, Some W0 =>
+      if check_witness_g I A W b P true (r_exh qy) (Some R) && rkind_eqb (kind_of R) (r_kind qy)
+         && doc_range 0 I R && set_eqb W W0 && wf_allocb I W0
+      then Some true else None
+  | RWitness W b P R, None =>
+      if check_witness_g I A W b P true (r_exh qy) (Some R) && rkind_eqb (kind_of R) (r_kind qy)
+         && doc_range 0 I R && (r_exh qy || Qleb (budget I) (b * n))
+      then Some true else None
+  | RFarkas [ys], Some W0 =>
+      if negb (wf_allocb I W0) || check_no_relaxed_ps I A W0 (r_exh qy) false (r_kind qy) ys
+      then Some false else None
+  | RFarkas yss, None =>
+      let subs := powerset (all_projects I) in
+      if Nat.eqb (length yss) (length subs)
+         && forallb (fun '(W, ys) => check_no_relaxed_ps I A W (r_exh qy) (negb (r_exh qy)) (r_kind qy) ys)
+                    (combine subs yss)
+      then Some false else None
+  | _, _ => None
+  end.
+
+(* the certified minimum of the objective over the solutions of the model's MIP: Some v, or None when a
+   certificate is rejected *)
+Definition certified_min (I : inst) (A : profile) (qy : rquery) : option (option Q) :=
+  match r_opt qy with
+  | None => Some None
+  | Some (W, b, P, R, t, yss) =>
+      let v := relax_objective I R in
+      let a := asg_of I A W b (pay_of P) true in
+      let wit := ps_constraints_g I A (r_alloc qy) true (r_exh qy) (Some R) a && wf_allocb I W
+                 && rkind_eqb (kind_of R) (r_kind qy) && Qltb t v && Qleb (v - OBJ_DELTA) t in
+      let low := match r_alloc qy, yss with
+                 | Some W0, [ys] => canonicalb I W0
+                                    && check_objective_lower I A W0 (r_exh qy) false (r_kind qy) t ys
+                 | None, _ => let subs := powerset (all_projects I) in
+                              Nat.eqb (length yss) (length subs)
+                              && forallb (fun '(W1, ys) =>
+                                   check_objective_lower I A W1 (r_exh qy) (negb (r_exh qy)) (r_kind qy) t ys)
+                                   (combine subs yss)
+                 | _, _ => false
+                 end in
+      if wit && low then Some (Some v) else None
+  end.
+
+Definition check_r (I : inst) (A : profile) (qy : rquery) : list nat :=
+  match decide_r I A qy with
+  | None => [7%nat]
+  | Some true => flag (r_ok qy) 12
+  | Some false => flag (negb (r_ok qy)) 13
+  end
+  ++ match certified_min I A qy with
+     | None => [7%nat]
+     | Some None => flag (negb (r_ok qy)) 15
+     | Some (Some v) =>
+         match r_wit qy with
+         | None => []           (* a failure here is reported by code 12 *)
+         | Some (_, _, _, _, obj, _, _, _) => flag (Qleb obj (v + OBJ_TOL) && Qleb (v - OBJ_TOL) obj) 14
+         end
+     end
+  ++ match r_wit qy with
+     | None => []
+     | Some (W, b, P, R, obj, valid, noise, edge) =>
+         flag (wf_allocb I W && Qleb (tcost I W) (budget I)
+               && match r_alloc qy with Some W0 => set_eqb W W0 | None => true end) 6
+         ++ flag (valid || noise) 8
+         ++ flag (check_ps_eps_g WIT_EPS I A W b P true (r_exh qy) (Some R)) 9
+         ++ flag (edge || Bool.eqb (validate_ps_g I A W b P true (r_exh qy) (Some R)) valid) 3
+         ++ flag (rkind_eqb (kind_of R) (r_kind qy) && doc_range OBJ_TOL I R) 16
+     end
+  ++ flat_map (check_rv I A) (r_vals qy)
+  ++ flag (forallb (fun '(Wx, b, P, R, r) =>
+             Bool.eqb (ps_constraints_g I A (r_alloc qy) true (r_exh qy) (Some R)
+                         (asg_of I A Wx b (pay_of P) true)) r) (r_rows qy)) 11.
+
 Definition check (c : case) : list nat :=
   let I := I_of c in
   let A := c_ballots c in
   flat_map (check_v I A) (c_vals c)
-  ++ match c_query c with None => [] | Some qy => check_q I A qy end.
+  ++ match c_query c with None => [] | Some qy => check_q I A qy end
+  ++ match c_rquery c with None => [] | Some qy => check_r I A qy end.
 
 Definition run (cs : list case) : list (nat * nat) := run_cases check 0 cs.
